@@ -17,7 +17,11 @@ import (
 type Map struct {
 	isCaseSensitive bool
 	data            map[string][]keyValue
-	variable        variables.RuleVariable
+	// order holds the keys of data in the order in which they were first added, so that
+	// iteration (and with it MATCHED_VAR, captures and "first N" limits) does not depend on
+	// Go's randomized map order.
+	order    []string
+	variable variables.RuleVariable
 }
 
 var _ collection.Map = &Map{}
@@ -63,7 +67,8 @@ func (c *Map) FindRegex(key *regexp.Regexp) []types.MatchData {
 	n := 0
 	// Collect matching data slices in a single pass to avoid evaluating the regex twice per key.
 	var matched [][]keyValue
-	for k, data := range c.data {
+	for _, k := range c.order {
+		data := c.data[k]
 		if key.MatchString(k) {
 			n += len(data)
 			matched = append(matched, data)
@@ -129,8 +134,8 @@ func (c *Map) FindAll() []types.MatchData {
 	buf := make([]corazarules.MatchData, n)
 	result := make([]types.MatchData, n)
 	i := 0
-	for _, data := range c.data {
-		for _, d := range data {
+	for _, k := range c.order {
+		for _, d := range c.data[k] {
 			buf[i] = corazarules.MatchData{
 				Variable_: c.variable,
 				Key_:      d.key,
@@ -143,12 +148,20 @@ func (c *Map) FindAll() []types.MatchData {
 	return result
 }
 
+// noteKey records the (already case-folded) key as the most recently added one if it is new.
+func (c *Map) noteKey(key string) {
+	if _, ok := c.data[key]; !ok {
+		c.order = append(c.order, key)
+	}
+}
+
 // Add adds a new key-value pair to the map.
 func (c *Map) Add(key string, value string) {
 	aVal := keyValue{key: key, value: value}
 	if !c.isCaseSensitive {
 		key = strings.ToLower(key)
 	}
+	c.noteKey(key)
 	c.data[key] = append(c.data[key], aVal)
 }
 
@@ -158,6 +171,7 @@ func (c *Map) Set(key string, values []string) {
 	if !c.isCaseSensitive {
 		key = strings.ToLower(key)
 	}
+	c.noteKey(key)
 	dataSlice, exists := c.data[key]
 	if !exists || cap(dataSlice) < len(values) {
 		dataSlice = make([]keyValue, len(values))
@@ -176,6 +190,7 @@ func (c *Map) SetIndex(key string, index int, value string) {
 	if !c.isCaseSensitive {
 		key = strings.ToLower(key)
 	}
+	c.noteKey(key)
 	values := c.data[key]
 	av := keyValue{key: originalKey, value: value}
 
@@ -197,7 +212,16 @@ func (c *Map) Remove(key string) {
 	if len(c.data) == 0 {
 		return
 	}
+	if _, ok := c.data[key]; !ok {
+		return
+	}
 	delete(c.data, key)
+	for i, k := range c.order {
+		if k == key {
+			c.order = append(c.order[:i], c.order[i+1:]...)
+			break
+		}
+	}
 }
 
 // Name returns the name of the map/collection.
@@ -210,13 +234,15 @@ func (c *Map) Reset() {
 	for k := range c.data {
 		delete(c.data, k)
 	}
+	c.order = c.order[:0]
 }
 
 // Format updates the passed strings.Builder with the formatted map key/values.
 func (c *Map) Format(res *strings.Builder) {
 	res.WriteString(c.variable.Name())
 	res.WriteString(":\n")
-	for k, v := range c.data {
+	for _, k := range c.order {
+		v := c.data[k]
 		res.WriteString("    ")
 		res.WriteString(k)
 		res.WriteString(": ")
